@@ -346,7 +346,8 @@ class Ctx:
             self.cov['theorems'].append({'name': n, 'axioms': ax})
         self.trust('coqc 8.16.1 kernel incl. vm_compute (no native_compute)')
         if not self.quick and os.environ.get('VERIF_NO_COQCHK') != '1':
-            self.coqchk('Props.' + self.pid, allowed)
+            # C17's library (Interval enclosures of Schwefel/Alpine2) needs more than an hour of coqchk: give it a short, documented limit
+            self.coqchk('Props.' + self.pid, allowed, timeout=300 if self.pid == 'C17' else 1500)
         return True, log
 
     def coqchk(self, module, allowed, timeout=1500):
